@@ -1430,11 +1430,12 @@ impl QueryPlan {
                     Func1Type::Floor => {
                         let decoded = t.codec.decode(plan, planner);
                         match t.decoded {
+                            // `decoded` no longer needs the codec of `t`
                             BasicType::Integer | BasicType::NullableInteger | BasicType::Null => {
-                                (decoded, t)
+                                (decoded, t.decoded())
                             }
                             BasicType::Float | BasicType::NullableFloat => {
-                                (planner.floor(decoded), t)
+                                (planner.floor(decoded), t.decoded())
                             }
                             _ => bail!(
                                 QueryError::TypeError,
